@@ -154,12 +154,19 @@ fn main() {
             let trace = a.iter().any(|x| x == "--trace");
             let only = a.iter().position(|x| x == "--only").and_then(|i| a.get(i + 1)).map(|s| format!("{}-", s.trim_end_matches('-')));
             for c in stdin_cases() {
-                let r = run_case(&c, trace);
+                let r = match catch(std::panic::AssertUnwindSafe(|| run_case(&c, trace))) {
+                    Some(r) => r,
+                    None => {
+                        let mut r = RunOut::default();
+                        r.fail("c03-panic", format!("case {}: the simulation panicked (stack or harness); rerun with TCPSIM_LOUD=1 for the message", c.id));
+                        r
+                    }
+                };
                 for l in &r.trace {
                     writeln!(out, "{}", l).unwrap();
                 }
                 for (cl, d) in &r.fails {
-                    if want(cl, &only) {
+                    if want(cl, &only) || cl == "c03-panic" {
                         writeln!(out, "FAIL {} :: {}", cl, d).unwrap();
                     }
                 }
